@@ -833,6 +833,75 @@ mod n {
         }
     }
 
+    // what a construction is made of is none of the links the checker reports: warnings depend on the wall -> construction
+    // and window -> construction links alone, whatever state the construction itself is in
+    #[test]
+    fn n_c15_made_of() {
+        drive(
+            "C15.made_of",
+            "check(&Model): 1 space, 2 walls, 1 window; the wall construction complete / naming a material that is not in the list / made of a material of conductivity 0 / without layers / two constructions sharing one name, the window construction with / without its glazing / its frame; x wall 0 space link x wall 0 construction link x window wall link x window construction link over {ok, nil, absent, id of another collection}",
+            |c| {
+                let mut m = empty_model();
+                m.spaces.push(space(0xA0, true, SpaceType::CONDITIONED, 1.0, 3.0));
+                let inside = c.pick(5);
+                let win_inside = c.pick(3);
+                m.cons.materials.push(material(0xE0, if inside == 2 { 0.0 } else { 0.5 }));
+                m.cons.wallcons.push(match inside {
+                    1 => wallcons(0xC0, &[(0xE0, 0.3), (0xE7, 0.1)]),
+                    3 => wallcons(0xC0, &[]),
+                    _ => wallcons(0xC0, &[(0xE0, 0.3)]),
+                });
+                if inside == 4 {
+                    let mut twin = wallcons(0xC1, &[(0xE0, 0.1)]);
+                    twin.name = m.cons.wallcons[0].name.clone();
+                    m.cons.wallcons.push(twin);
+                }
+                m.cons.glasses.push(glass(0xF0));
+                m.cons.frames.push(frame(0xF1));
+                m.cons.wincons.push(match win_inside {
+                    0 => wincons(0xD0, uid(0xF0), uid(0xF1)),
+                    1 => wincons(0xD0, uid(0xF8), uid(0xF1)),
+                    _ => wincons(0xD0, uid(0xF0), uid(0xF9)),
+                });
+                let mut want: Vec<Uuid> = vec![];
+                let (sp, ok_sp) = link(c, uid(0xA0), uid(2));
+                let (cn, ok_cn) = link(c, uid(0xC0), uid(0xD0));
+                m.walls.push(wall(1, BoundaryType::EXTERIOR, sp, None, cn, 90.0, 0.0, rect(4.0, 3.0), None));
+                m.walls.push(wall(2, BoundaryType::EXTERIOR, uid(0xA0), None, uid(0xC0), 90.0, 90.0, rect(4.0, 3.0), None));
+                for ok in [ok_sp, ok_cn] {
+                    if !ok {
+                        want.push(uid(1));
+                    }
+                }
+                let (ww, ok_ww) = link(c, uid(1), uid(0xA0));
+                let (wc, ok_wc) = link(c, uid(0xD0), uid(0xC0));
+                m.windows.push(window(0x11, ww, wc, 1.0, 1.0, None, 0.0));
+                for ok in [ok_ww, ok_wc] {
+                    if !ok {
+                        want.push(uid(0x11));
+                    }
+                }
+                c.note(format!("wall construction state {} window construction state {} | wall0 space ok={} cons ok={} | window wall ok={} cons ok={}", inside, win_inside, ok_sp, ok_cn, ok_ww, ok_wc));
+                let before = m.as_json().unwrap();
+                let ws = check(&m);
+                let mut got: Vec<Uuid> = ws.iter().filter_map(|w| w.id).collect();
+                got.sort();
+                want.sort();
+                c.check("C15.exact", got == want && ws.iter().all(|w| w.id.is_some()), || format!("warning ids {:?} want {:?}", got, want));
+                c.check("C15.model_unchanged", before == m.as_json().unwrap(), || "check() modified the model".to_string());
+                if want.is_empty() {
+                    c.check("C15.closed_silent", ws.is_empty(), || format!("{} warnings for a closed model: {:?}", ws.len(), ws.iter().map(|w| w.msg.clone()).collect::<Vec<_>>()));
+                }
+                // the warnings returned with the indicators are the checker's
+                let ind = m.energy_indicators();
+                let mut got2: Vec<Uuid> = ind.warnings.iter().filter_map(|w| w.id).collect();
+                got2.sort();
+                c.check("C15.indicators_warnings", got2 == want, || format!("indicators carry warning ids {:?} want {:?}", got2, want));
+                c.nontrivial(format!("{} {} {}", inside, win_inside, want.len()));
+            },
+        );
+    }
+
     #[test]
     fn n_c15_check() {
         drive(
@@ -987,7 +1056,7 @@ mod n {
     fn n_c16_purge() {
         drive(
             "C16.purge",
-            "purge_unused(&mut Model): 3 spaces, 2 walls (own space {s0,s1}, adjacent {none,s1,s2}, construction {c0,c1}), 1 window (construction {x0,x1}; x1 glass {g0,g1}), 4 bridges (lengths {0,2} / -1 / 0.001 / -0.0), space loads {none,l0,l1} x thermostat {none,t0}, load schedules over 3 yearly, thermostat schedule {none,y1,y2}, yearly->weekly->daily chains with sharing",
+            "purge_unused(&mut Model): 3 spaces, 2 walls (own space {s0,s1}, adjacent {none,s1,s2}, construction {c0,c1}), 1 window (construction {x0,x1}; x1 glass {g0,g1}), 4 bridges (lengths {0,2} / -1 / 0.001 / -0.0), space loads {none,l0,l1} x thermostat {none,t0}, load schedules over 3 yearly, thermostat schedule {none,y1,y2}, yearly->weekly->daily chains with sharing; every collection listed as built / reversed / rotated by one",
             |c| {
                 let mut m = empty_model();
                 for i in 0..3u128 {
@@ -1044,7 +1113,35 @@ mod n {
                 m.schedules.day.push(schedd(0x50, 1.0));
                 m.schedules.day.push(schedd(0x51, 0.5));
                 m.schedules.day.push(schedd(0x52, 0.0));
-                c.note(format!("g1={:x} w={:x}/{:?}/{:x} win={:x} l0={} loads={:?} therm={:?} ps={:?} es={:?} ts={:?} y0w={:x} k1d={:x}", g1, w0s, w0n, w0c, wx, l0, sl, st, ps, es, ts, y0w, k1d));
+                // the order in which the collections list their items: as built / reversed / rotated by one (an unused
+                // item then sits before, between or after the used ones)
+                let layout = c.pick(3);
+                macro_rules! lay {
+                    ($v:expr) => {
+                        match layout {
+                            1 => $v.reverse(),
+                            2 => {
+                                if $v.len() > 1 {
+                                    $v.rotate_left(1)
+                                }
+                            }
+                            _ => {}
+                        }
+                    };
+                }
+                lay!(m.spaces);
+                lay!(m.thermal_bridges);
+                lay!(m.cons.materials);
+                lay!(m.cons.wallcons);
+                lay!(m.cons.wincons);
+                lay!(m.cons.glasses);
+                lay!(m.cons.frames);
+                lay!(m.loads);
+                lay!(m.thermostats);
+                lay!(m.schedules.year);
+                lay!(m.schedules.week);
+                lay!(m.schedules.day);
+                c.note(format!("g1={:x} w={:x}/{:?}/{:x} win={:x} l0={} loads={:?} therm={:?} ps={:?} es={:?} ts={:?} y0w={:x} k1d={:x} order={}", g1, w0s, w0n, w0c, wx, l0, sl, st, ps, es, ts, y0w, k1d, ["as built", "reversed", "rotated"][layout]));
 
                 let want = purge_oracle(&m);
                 let ind0 = m.energy_indicators();
